@@ -135,6 +135,9 @@ func lengths() []int {
 		for i := 0; i <= 20000; i++ {
 			l = append(l, i)
 		}
+		for k := 5; k <= 32; k++ {
+			l = append(l, 4096*k-1, 4096*k, 4096*k+1)
+		}
 		return l
 	}
 	for i := 0; i <= 300; i++ {
